@@ -14,6 +14,15 @@ use std::fmt::Write as _;
 pub const FAMILY: usize = 96;
 pub const FAMILY_SEED: u64 = 0x5eed_fa71;
 
+const SCALE_GRAMMAR: &str = r#"flat_digits = @{ "x" ~ ASCII_DIGIT* }
+flat_range = @{ ('a'..'c')+ ~ "!"? }
+flat_until = ${ "q" ~ (!"z" ~ ANY)* }
+flat_opt = @{ "k" ~ ("v")* ~ "w"? }
+opt_nest = { ("[" ~ opt_nest ~ "]")? }
+rep_nest = { ("(" ~ rep_nest ~ ")")* }
+neg_nest = { "<" ~ (!">" ~ neg_nest)? ~ ">" | "." }
+"#;
+
 fn main() {
     println!("cargo:rerun-if-changed=build.rs");
     println!("cargo:rerun-if-changed=src/gen.rs");
@@ -43,6 +52,22 @@ fn main() {
         writeln!(seeds, "    {seed}u64,").unwrap();
         count += 1;
     }
+    // hand-written members for SCALE (very long tokens matched by one flat repetition in an atomic
+    // rule, hundreds of nested absorbing constructs); inputs come from the fixed corpus
+    let generated = count;
+    for text in [SCALE_GRAMMAR] {
+        assert!(pest_meta::parse_and_optimize(text).is_ok(), "scale grammar must be valid");
+        writeln!(
+            out,
+            "pub mod g{count} {{ #[derive(pest_derive::Parser)] #[grammar_inline = r####\"{text}\"####] pub struct P; }}"
+        )
+        .unwrap();
+        writeln!(arms, "        {count} => go!(g{count}),").unwrap();
+        writeln!(texts, "    r####\"{text}\"####,").unwrap();
+        writeln!(seeds, "    0u64,").unwrap();
+        count += 1;
+    }
+    writeln!(out, "pub const FAMILY_GENERATED: usize = {generated};").unwrap();
     writeln!(out, "pub const FAMILY: usize = {count};").unwrap();
     writeln!(out, "pub const FAMILY_TEXTS: [&str; {count}] = [\n{texts}];").unwrap();
     writeln!(out, "pub const FAMILY_SEEDS: [u64; {count}] = [\n{seeds}];").unwrap();
